@@ -51,7 +51,7 @@ COSMO_BOX = {
 }
 
 
-def gen_config(rng, force=False, mixed=False, custom_sne=False):
+def gen_config(rng, force=False, mixed=False, custom_sne=False, with_kde=False):
     """force: the configuration with the most sampled blocks (log-space scatters, two anisotropy scatters);
     mixed: a sample in which a kinematic lens WITHOUT a slope axis precedes lenses that sample their own slope"""
     cosmology = rng.choice(["FLCDM", "FwCDM", "w0waCDM", "oLCDM", "oLCDM"])
@@ -145,7 +145,20 @@ def gen_config(rng, force=False, mixed=False, custom_sne=False):
                   kwargs_lower_los=lo_los, kwargs_upper_los=up_los)
     # the supernova term from a user-supplied (CUSTOM) sample of realistic size instead of the bundled binned one
     sne_custom = {"n": rng.randint(130, 190), "seed": rng.randrange(2 ** 30)} if (sne and (custom_sne or rng.random() < 0.5)) else None
-    return dict(cosmology=cosmology, lenses=lenses, model=model, bounds=bounds, sne=sne, sne_custom=sne_custom, num_draws=rng.choice([2, 3]))
+    # an external posterior chain entering through a kernel density estimate (its own data likelihood, like the lens sample
+    # and the supernova term: not evaluated either when the vector is rejected)
+    kde = {"n": rng.choice([40, 80]), "seed": rng.randrange(2 ** 30)} if (with_kde or rng.random() < 0.2) else None
+    return dict(cosmology=cosmology, lenses=lenses, model=model, bounds=bounds, sne=sne, sne_custom=sne_custom, kde=kde,
+                num_draws=rng.choice([2, 3]))
+
+
+def kde_chain(cfg):
+    from hierarc.Likelihood.KDELikelihood.chain import Chain
+    r = np.random.RandomState(cfg["kde"]["seed"])
+    lo, up = COSMO_BOX[cfg["cosmology"]]
+    n = cfg["kde"]["n"]
+    params = {k: r.uniform(lo[k] + 0.25 * (up[k] - lo[k]), up[k] - 0.25 * (up[k] - lo[k]), n) for k in lo}
+    return Chain("kw", "probe", params, np.ones(n), cfg["cosmology"], rescale=True)
 
 
 def custom_sne_sample(spec):
@@ -206,12 +219,18 @@ def build(cfg):
         k = copy.deepcopy(kw)
         k["num_distribution_draws"] = cfg["num_draws"]
         ls.append(k)
+    extra = {}
+    if cfg.get("kde"):
+        import warnings
+        with warnings.catch_warnings():
+            warnings.simplefilter("ignore")
+            extra = dict(KDE_likelihood_chain=kde_chain(cfg), kwargs_kde_likelihood={})
     if cfg.get("sne_custom"):
         return CosmoLikelihood(ls, cfg["cosmology"], copy.deepcopy(cfg["model"]), copy.deepcopy(cfg["bounds"]),
                                sne_likelihood="CUSTOM", kwargs_sne_likelihood=custom_sne_sample(cfg["sne_custom"]),
-                               interpolate_cosmo=True, num_redshift_interp=60)
+                               interpolate_cosmo=True, num_redshift_interp=60, **extra)
     return CosmoLikelihood(ls, cfg["cosmology"], copy.deepcopy(cfg["model"]), copy.deepcopy(cfg["bounds"]),
-                           sne_likelihood="Pantheon_binned" if cfg["sne"] else None, interpolate_cosmo=True, num_redshift_interp=60)
+                           sne_likelihood="Pantheon_binned" if cfg["sne"] else None, interpolate_cosmo=True, num_redshift_interp=60, **extra)
 
 
 def e2(om, ok, z):
@@ -263,7 +282,17 @@ def tabulated(cl, kw):
 
 def evaluate(cl, x, interp=None):
     """returns (value or err, number of lens-sample evaluations, number of SNe evaluations, lens terms before nan_to_num)"""
-    counts = {"lens": 0, "sne": 0}
+    counts = {"lens": 0, "sne": 0, "kde": 0}
+    kde_val = [None]
+    from hierarc.Likelihood.KDELikelihood.kde_likelihood import KDELikelihood as _KDE
+    orig_kde = _KDE.kdelikelihood_samples
+
+    def kde_wrapped(self_, *a, **k):
+        counts["kde"] += 1
+        r = orig_kde(self_, *a, **k)
+        kde_val[0] = float(np.ravel(r)[0])
+        return r
+    _KDE.kdelikelihood_samples = kde_wrapped
     raw_terms = []
     sample = cl._likelihoodLensSample
     orig = sample.log_likelihood
@@ -304,11 +333,13 @@ def evaluate(cl, x, interp=None):
     except Exception as e:  # noqa
         out = {"err": err_enum(e), "msg": str(e)[:100]}
     finally:
+        _KDE.kdelikelihood_samples = orig_kde
         del sample.log_likelihood
         for lens in patched:
             del lens.hyper_param_likelihood
         if cl._sne_evaluate:
             del cl._sne_likelihood.log_likelihood
+    counts["kde_val"] = kde_val[0]
     return out, counts, raw_terms, sne_val[0]
 
 
@@ -329,8 +360,8 @@ def oracle(cfg, cl, x, kind, lo, up):
             fails.append("%s: raised %s" % (why, out["err"]))
         elif out["value"] != -math.inf:
             fails.append("%s: log-probability %r instead of -inf" % (why, out["value"]))
-        if counts["lens"] or counts["sne"]:
-            fails.append("%s: data likelihoods were evaluated (%d lens-sample, %d SNe calls)" % (why, counts["lens"], counts["sne"]))
+        if counts["lens"] or counts["sne"] or counts["kde"]:
+            fails.append("%s: data likelihoods were evaluated (%d lens-sample, %d SNe, %d chain-KDE calls)" % (why, counts["lens"], counts["sne"], counts["kde"]))
     else:
         if "err" in out:
             fails.append("inside the box: raised %s (%s)" % (out["err"], out.get("msg")))
@@ -341,7 +372,7 @@ def oracle(cfg, cl, x, kind, lo, up):
 
 def enc(cfg, x, kind):
     return {"cfg": c07.enc({"cosmology": cfg["cosmology"], "lenses": [list(l) for l in cfg["lenses"]], "model": cfg["model"],
-                            "bounds": cfg["bounds"], "sne": cfg["sne"], "sne_custom": cfg.get("sne_custom"), "num_draws": cfg["num_draws"]}), "x": list(map(float, x)), "kind": kind}
+                            "bounds": cfg["bounds"], "sne": cfg["sne"], "sne_custom": cfg.get("sne_custom"), "kde": cfg.get("kde"), "num_draws": cfg["num_draws"]}), "x": list(map(float, x)), "kind": kind}
 
 
 def dec(d):
@@ -367,7 +398,12 @@ def run(ctx, res):
     ncfg = ctx.n(28, 400)
     lines, meta = [], []
     for t in range(ncfg):
-        cfg = gen_config(rng, force=(t < 2), mixed=(t in (2, 3)), custom_sne=(t == 4))
+        cfg = gen_config(rng, force=(t < 2), mixed=(t in (2, 3)), custom_sne=(t == 4), with_kde=(t in (5, 6)))
+        if t == 5:
+            cfg["cosmology"] = "oLCDM"      # the chain term together with the curved-model guard
+            cfg["bounds"]["kwargs_lower_cosmo"], cfg["bounds"]["kwargs_upper_cosmo"] = (
+                dict(COSMO_BOX["oLCDM"][0], **{k: v for k, v in cfg["bounds"]["kwargs_lower_cosmo"].items() if k == "gamma_ppn"}),
+                dict(COSMO_BOX["oLCDM"][1], **{k: v for k, v in cfg["bounds"]["kwargs_upper_cosmo"].items() if k == "gamma_ppn"}))
         try:
             cl = build(cfg)
         except Exception as e:  # noqa
@@ -445,7 +481,8 @@ def run(ctx, res):
                           "args": [f2b(v) for v in x], "om": f2b(kw.get("om", 0.3)), "ok": f2b(kw.get("ok", 0.0)),
                           # the sampled H0 when the distances are built from it (not with caller-tabulated distances)
                           "h0": (None if (kind.startswith("tab_") or "h0" not in kw) else f2b(kw["h0"])),
-                          "lens": [f2b(v) for v in raw], "sne": (f2b(sne_val) if sne_val is not None else None), "kde": None, "prior": None})
+                          "lens": [f2b(v) for v in raw], "sne": (f2b(sne_val) if sne_val is not None else None),
+                          "kde": (f2b(counts["kde_val"]) if counts.get("kde_val") is not None else None), "prior": None})
             meta.append((cfg, x, kind, out, counts))
     if ctx.search_mode:
         return
